@@ -89,8 +89,11 @@ def c06_schemas():
     return [zschema("c06z", "littleEndian"), zschema("c06y", "bigEndian", "uint64")]
 
 
-def all_schemas():
-    return catalogue.view_schemas() + c06_schemas()
+def all_schemas(tier="quick", seed=1):
+    # + schemas built by spec/SchemaBuild.tla (the same ones the view machine gets)
+    import schemabuild
+    gen = schemabuild.generated_schemas(10 if tier == "thorough" else 3, seed)[:4 if tier == "thorough" else 1]
+    return catalogue.view_schemas() + c06_schemas() + gen
 
 
 # (compiler, standard, mode, optimisation); mode rel = SBEPP_DISABLE_ASSERTS,
@@ -187,7 +190,7 @@ def sample_of(x):
 def run(v, tier, seed):
     thorough = tier == "thorough"
     wd = vlib.ensure_dir(os.path.join(vlib.WORK, "c06", "run-" + tier))
-    schemas = all_schemas()
+    schemas = all_schemas(tier, seed)
     configs = CONFIGS_THOROUGH if thorough else CONFIGS_QUICK
     prep = {}
     for S in schemas:
